@@ -50,6 +50,7 @@ type Config struct {
 	Concrete        map[string]uint64 // replay: fixed values for nondets (engine concrete mode)
 	ConcreteChoices []int
 	RecordQueries   bool
+	NoMerge         bool
 	SlowQuery       time.Duration
 	SlowDir         string
 	Negate          bool // twin run: vAssert conditions are negated (vacuity guard)
@@ -269,7 +270,7 @@ func (e *Engine) runInit(r *Run, f *ssa.Function) {
 		if rec := recover(); rec != nil {
 			switch x := rec.(type) {
 			case abort:
-				e.InitLog = append(e.InitLog, fmt.Sprintf("init of %s incomplete: %s", f.Pkg.Pkg.Path(), x.msg))
+				e.InitLog = append(e.InitLog, fmt.Sprintf("init of %s incomplete: %s (in %s)", f.Pkg.Pkg.Path(), x.msg, r.lastFn))
 			case targetPanic:
 				e.InitLog = append(e.InitLog, fmt.Sprintf("init of %s panicked: %s %s", f.Pkg.Pkg.Path(), x.fault, showValue(x.v)))
 			default:
@@ -429,7 +430,23 @@ func (e *Engine) Explore() error {
 			e.mu.Unlock()
 		}(w)
 	}
+	stopProgress := make(chan struct{})
+	go func() {
+		tk := time.NewTicker(10 * time.Second)
+		defer tk.Stop()
+		for {
+			select {
+			case <-stopProgress:
+				return
+			case <-tk.C:
+				e.mu.Lock()
+				fmt.Fprintf(os.Stderr, "  ... %s: %d paths, %d queued, %d active, %.0fs\n", e.Cfg.Entry, e.Sum.Paths, len(e.queue), e.active, time.Since(t0).Seconds())
+				e.mu.Unlock()
+			}
+		}
+	}()
 	wg.Wait()
+	close(stopProgress)
 	select {
 	case err := <-errs:
 		return err
